@@ -1,7 +1,7 @@
 (** C06 — symbolic evaluation is sound substitution.  Property theorems only.
     Proved (model EvalAbs.eval_expr, tied to eval_abs.eval_expr by exact-output correspondence): for register-only states (no
     symbolic memory cell has been written), whose bindings map non-terminal identifiers to well-formed expressions of their width,
-    and for every expression of fragments 1-4 (C05: slices, the shifts << >> a>>, == and parity included) whose identifiers conform to a name signature (width, is_reg, is_term):
+    and for every expression of fragments 1-4 (C05 with ac = false: slices, the shifts << >> a>>, == and parity included; no concatenations) whose identifiers conform to a name signature (width, is_reg, is_term):
     every result eval_expr returns is well formed, has the width of the argument, and — in EVERY concrete state rho, memory and
     operator interpretation — evaluates to the value of the argument in the state where each bound identifier takes the value of
     its binding in rho.  Terminal identifiers are never substituted; memory cells are read at the substituted address.
@@ -16,8 +16,8 @@ Open Scope Z_scope.
 
 Theorem C06_eval_expr_is_substitution : forall (Sig : string -> Z * bool * bool) (s : pool),
   pool_mem s = [] -> Forall (binding_ok Sig) (pool_id s) ->
-  forall fuel e e', wf (IdQ Sig) e = true -> eval_expr fuel s e = inl (Ok e') ->
-  wf (IdQ Sig) e' = true /\ size e' = size e /\
+  forall fuel e e', wf false (IdQ Sig) e = true -> eval_expr fuel s e = inl (Ok e') ->
+  wf false (IdQ Sig) e' = true /\ size e' = size e /\
   forall rho mu iota, eval rho mu iota e' = eval (rho' s rho mu iota) mu iota e.
 Proof. exact eval_expr_is_substitution. Qed.
 Print Assumptions C06_eval_expr_is_substitution.
@@ -31,12 +31,12 @@ Definition e0 : expr :=
   let eax := EId "eax" 32 true false in let ebx := EId "ebx" 32 true false in
   EOp "+" [EOp "^" [eax; ebx]; EMem eax 32 None; EOp "-" [eax]].
 Example C06_nonvacuous :
-  wf (IdQ sig0) e0 = true /\ forallb (fun kv => wf (IdQ sig0) (snd kv) && (size (snd kv) =? 32)) (pool_id st0) = true /\
+  wf false (IdQ sig0) e0 = true /\ forallb (fun kv => wf false (IdQ sig0) (snd kv) && (size (snd kv) =? 32)) (pool_id st0) = true /\
   (match eval_expr 30 st0 e0 with inl (Ok _) => true | _ => false end) = true.
 Proof. vm_compute. repeat split; reflexivity. Qed.
 (** shifts with constant operands go through deal_op's constant evaluation (saturating counts): ebx := 2, so  (ebx << 3) a>> ebx  is a constant *)
 Example C06_shift_consts :
   let ebx := EId "ebx" 32 true false in
   let e := EOp "a>>" [EOp "<<" [ebx; EInt false 32 3]; ebx] in
-  wf (IdQ sig0) e = true /\ eval_expr 30 st0 e = inl (Ok (EInt false 32 4)).
+  wf false (IdQ sig0) e = true /\ eval_expr 30 st0 e = inl (Ok (EInt false 32 4)).
 Proof. vm_compute. split; reflexivity. Qed.
